@@ -31,6 +31,7 @@ var (
 	simPath  = flag.String("sim", "github.com/google/badwolf/xverif/sim", "import path of the sim package")
 	sitesOut = flag.String("sites", "", "write site table (json) here")
 	mapsOnly = flag.String("mapsonly", "", "comma separated files that only get their map ranges rewritten (no yields)")
+	reimport = flag.String("reimport", "", "comma separated old=new import path rewrites applied to every processed file")
 )
 
 type site struct {
@@ -126,14 +127,9 @@ func rewriteList(list []ast.Stmt) []ast.Stmt {
 				}
 			}
 		default:
-			if ce, ok := isGoCall(s); ok {
-				out = append(out, beforeGoStmt(s.Pos()))
-				if fl, ok := ce.Args[0].(*ast.FuncLit); ok {
-					markGoroutineBody(fl)
-				}
-			} else {
-				out = append(out, yieldStmt(s.Pos()))
-			}
+			// x.Go(f) of errgroup needs no announcement: the instrumented
+			// copy of errgroup announces its own go statement.
+			out = append(out, yieldStmt(s.Pos()))
 		}
 		out = append(out, s)
 	}
@@ -357,6 +353,15 @@ func main() {
 					continue
 				}
 				rewriteMapRanges(f, info)
+				for _, kv := range strings.Split(*reimport, ",") {
+					if old, nw, ok := strings.Cut(kv, "="); ok {
+						for _, is := range f.Imports {
+							if is.Path.Value == strconv.Quote(old) {
+								is.Path.Value = strconv.Quote(nw)
+							}
+						}
+					}
+				}
 				if full[fn] {
 					instrumentFile(f)
 				} else {
